@@ -866,13 +866,23 @@ def _brief(case):
     return c
 
 
+def _late(ctx):
+    """REST, the transfer command, OTHER commands, and only then the data connection (see harness/latewire.py)"""
+    import world as W2
+    from props import late_common as LC
+
+    users = [W2.UserSpec("bob", None)]
+    return LC.run_family(ctx, "C01", LC.c01_plans(ctx), lambda p: (users, [None], LC.C01_TREE, p, ["USER bob"]), LC.c01_oracle)
+
+
 def correspondence(ctx):
     res = _run(ctx, gen_cases(ctx))
+    res.merge(_late(ctx))
     if res.oracle_failures:
         by_sig = {}
         for f in res.oracle_failures:
             by_sig.setdefault(f["signature"], f)
-        res.oracle_failures = [shrink(f) for f in list(by_sig.values())[:3]] + res.oracle_failures
+        res.oracle_failures = [shrink(f) if "ops" in f.get("input", {}) else f for f in list(by_sig.values())[:3]] + res.oracle_failures
     return res
 
 
@@ -951,6 +961,7 @@ def shrink(fail, budget=160):
 
 def search(ctx, prior):
     res = Result()
+    res.merge(_late(ctx))
     cases = []
     for d in prior.disagreements:
         c = d.get("input")
@@ -965,12 +976,23 @@ def search(ctx, prior):
     by_sig = {}
     for f in res.oracle_failures:
         by_sig.setdefault(f["signature"], f)
-    res.oracle_failures = [shrink(f) for f in list(by_sig.values())[:3]] + res.oracle_failures
+    res.oracle_failures = [shrink(f) if "ops" in f.get("input", {}) else f for f in list(by_sig.values())[:3]] + res.oracle_failures
     return res
 
 
 def replay(ctx, doc):
     inp = doc["failure"]["input"]
+    if "late_plan" in inp:
+        import latewire as LW
+        import world as W2
+        from props import late_common as LC
+
+        plan = [tuple(x) for x in inp["late_plan"]]
+        recs = LW.run_plan(([W2.UserSpec("bob", None)], [None], LC.C01_TREE, plan, ["USER bob"]))
+        f = LC.c01_oracle(plan, recs) if not isinstance(recs, str) else {"what": recs}
+        print("plan:", plan)
+        print("oracle:", f)
+        return f is not None
     case = {k: v for k, v in inp.items() if k != "failing_op"}
     obs = run_case(case)
     f = oracle(case, obs)
